@@ -472,6 +472,27 @@ func c04(c *Ctx) {
 				}
 			}
 			r.Check(okLen, "C04.R2", "arity test in "+shortName(mf), p.Pos(posOf(ev)), "len(args)==len(exprs) precedes the pairing", "the argument/expression count comparison no longer precedes the pairwise evaluation (index out of range or partial match)")
+			// and every `return true` of the matcher lies behind it: no shortcut answers "matched" for a call of another arity
+			okArity := true
+			for _, ret := range returnsOf(mf) {
+				cv, ok := ret.Results[0].(*ssa.Const)
+				if !ok || cv.Value == nil || cv.Value.String() != "true" {
+					continue
+				}
+				behind := false
+				for _, g := range guardsAt(ret.Block()) {
+					if bo, ok := g.Cond.(*ssa.BinOp); ok && isLenCall(bo.X) && isLenCall(bo.Y) {
+						if (bo.Op == token.NEQ && !g.Pol) || (bo.Op == token.EQL && g.Pol) {
+							behind = true
+						}
+					}
+				}
+				if !behind {
+					okArity = false
+				}
+			}
+			r.Check(okArity, "C04.R2", "every 'matched' answer of "+shortName(mf)+" lies behind the arity test", p.Pos(mf.Pos()), "return true only where len(args)==len(exprs) is known",
+				"the matcher can answer 'matched' without having compared the number of actual arguments with the number of expressions (a shortcut in front of the test): for a variadic function a condition written for n arguments also selects calls with any other number of arguments")
 		}
 	}
 
